@@ -1,7 +1,7 @@
 (* DataReg/Refine.v — the registry refines a history-based specification of availability, on the domain of
    registrations (on locations that do not wrap another one) and invalidations. *)
 From Coq Require Import List Bool Arith Lia.
-From SF Require Import Base.Str Base.Corr DataReg.Model DataReg.Rereg DataReg.Inval.
+From SF Require Import Base.Str Base.Corr DataReg.Model DataReg.Proofs DataReg.Rereg DataReg.Inval.
 Import ListNotations.
 Local Open Scope string_scope. Local Open Scope list_scope.
 
@@ -399,4 +399,33 @@ Proof.
     + split; [apply andb_true_iff; split; [apply key_eqb_eq; exact Hk|exact B]|].
       intros l' x Hin. rewrite <- in_rev in Hin. destruct (key_eqb (key_of tab l') K) eqn:E2; [|reflexivity].
       simpl. apply (H l' x); [exact Hin|apply key_eqb_eq; exact E2].
+Qed.
+
+(* ---- the source chosen for a transfer is a valid copy, on the same domain ---- *)
+Lemma get_raw_locs s p t r :
+  In r (get_raw s p None None t) ->
+  exists n K, find_node p (nodes s) = Some n /\ In r (locs_at n K).
+Proof.
+  unfold get_raw. destruct (find_node p (nodes s)) as [n|]; [|intros []].
+  intros H. apply in_flat_map in H. destruct H as [d [_ H]].
+  apply in_flat_map in H. destruct H as [nm [_ H]]. apply filter_In in H. destruct H as [H _].
+  exists n, (d, nm). split; [reflexivity|]. unfold locs_at, dget2. simpl.
+  destruct (dget d (nlocs n)); [exact H|]. simpl in H. destruct H.
+Qed.
+Theorem source_valid_plain tab h p dst r :
+  nowrap tab -> Forall d1_op h ->
+  let s := rs (run tab h) in
+  In r (source_candidates tab s p dst) ->
+  exists x, hget s r = Some x /\ dl_type x = PRIMARY /\ dl_path x = p /\ available s p (dl_loc x) = true.
+Proof.
+  intros NW D s H. apply DataReg.Proofs.source_candidates_sub in H.
+  apply DataReg.Proofs.get_dl_sound in H. destruct H as [Hv Hr].
+  destruct (DataReg.Proofs.get_raw_type _ _ _ _ _ _ Hr) as [x [Hx Ht]].
+  destruct (get_raw_locs _ _ _ _ Hr) as [n [K [Hf Hin]]].
+  assert (W : wfk s) by apply wfk_reachable.
+  assert (O : ownp s) by (apply ownp_reachable; assumption).
+  pose proof (find_node_In _ _ _ Hf) as He.
+  destruct (W p n K r He Hin) as [x1 [E1 L1]]. destruct (O p n K r He Hin) as [x2 [E2 P2]].
+  rewrite Hx in E1, E2. inversion E1; inversion E2; subst x1 x2.
+  exists x. repeat split; try assumption. apply avail_iff. exists n, r. rewrite L1. auto.
 Qed.
